@@ -87,7 +87,7 @@ int next_backend_desc = 0;
  * @returns pointer to a registered liberasurecode instance
  * The caller must hold active_instances_rwlock
  */
-ec_backend_t liberasurecode_backend_instance_get_by_desc(int desc)
+static ec_backend_t liberasurecode_backend_instance_get_by_desc_nolock(int desc)
 {
     struct ec_backend *b = NULL;
     VERIF_ACCESS_R(&active_instances, "registry.list:lookup");
@@ -96,6 +96,25 @@ ec_backend_t liberasurecode_backend_instance_get_by_desc(int desc)
         if (b->idesc == desc)
             break;
     }
+    return b;
+}
+
+/**
+ * Look up a backend instance by descriptor
+ *
+ * Takes active_instances_rwlock for reading while the list is walked.
+ *
+ * @returns pointer to a registered liberasurecode instance
+ */
+ec_backend_t liberasurecode_backend_instance_get_by_desc(int desc)
+{
+    struct ec_backend *b = NULL;
+
+    if (rwlock_rdlock(&active_instances_rwlock) != 0)
+        return NULL;
+    b = liberasurecode_backend_instance_get_by_desc_nolock(desc);
+    rwlock_unlock(&active_instances_rwlock);
+
     return b;
 }
 
@@ -113,7 +132,7 @@ int liberasurecode_backend_alloc_desc(void)
         if (next_backend_desc < 0 || next_backend_desc == INT_MAX)
             next_backend_desc = 0;
         ++next_backend_desc;
-        if (!liberasurecode_backend_instance_get_by_desc(next_backend_desc))
+        if (!liberasurecode_backend_instance_get_by_desc_nolock(next_backend_desc))
             return next_backend_desc;
     }
 }
@@ -277,6 +296,7 @@ int liberasurecode_instance_create(const ec_backend_id_t id,
 {
     ec_backend_t instance = NULL;
     struct ec_backend_args bargs;
+    int desc;
     if (!args)
         return -EINVALIDPARAMS;
 
@@ -323,10 +343,10 @@ int liberasurecode_instance_create(const ec_backend_id_t id,
 
     /* Register instance and return a descriptor/instance id */
     VERIF_YIELD("instance_create:before-register");
-    instance->idesc = liberasurecode_backend_instance_register(instance);
-    VERIF_ACCESS_W(&instance->idesc, "instance.idesc:instance_create");
+    /* register() stores the descriptor in the instance under the lock */
+    desc = liberasurecode_backend_instance_register(instance);
 
-    return instance->idesc;
+    return desc;
 }
 
 /**
